@@ -5,6 +5,7 @@ export GOFLAGS=-mod=mod GOPROXY=off GOSUMDB=off GOTOOLCHAIN=local
 set -e
 mkdir -p bin evidence failures
 ( cd sim && go build -tags verif -o ../bin/fgsim ./cmd/fgsim )
+( cd sim && go build -tags "verif noasmtest" -o ../bin/fgsim-portable ./cmd/fgsim )
 ( cd sim && go build -race -tags verif -o ../bin/fgsim-race ./cmd/fgsim )
 # reference models against compress/flate and against synthesised ground truth
 ( cd sim && go test -count=1 ./ref )
